@@ -186,7 +186,9 @@ func c13Run(c *Ctx) {
 		c.Descf("packet=%q", pkt)
 	}
 	harness.LogDefault()
-	harness.Pristine()
+	// empty pools at the start of the run: what a run observes is a function of (seed, run) and
+	// of nothing an earlier run of the same worker left in a pool (history is C04's subject)
+	harness.GCPoint()
 	c.Dev.Budget = c08Budget(len(data))
 	r := newReader(c.Dev, data, Fault{}, d)
 	res := invoke(c, e, &harness.Env{RK: rk}, r)
